@@ -236,12 +236,16 @@ func c16Shards(tier string) []engine.Shard {
 }
 
 func c16ResetLayers(tier string) []Layer {
-	menu := Menu{Reset: true, Restart: true, WriteChunks: true}
+	menu := Menu{Reset: true, Restart: true, WriteChunks: true, ReadFrom: true}
 	geos := []lz.BufConfig{{BufferSize: 8, WindowSize: 8, BlockSize: 4}, {BufferSize: 16, WindowSize: 16, BlockSize: 16}, {BufferSize: 5, WindowSize: 3, BlockSize: 2, ShrinkSize: 1}}
 	if tier == "thorough" {
 		return []Layer{{Name: "reset-capacity", Kinds: Kinds, Geos: append(geos, lz.BufConfig{BufferSize: 1024, WindowSize: 64, BlockSize: 512}), Level: 0, Inputs: Union(BinaryRange(3, 7), FewLong(20)), Menu: menu, Bound: 3, NoTrack: true}}
 	}
-	return []Layer{{Name: "reset-capacity", Kinds: HashKinds, Geos: geos, Level: 2, Inputs: BinaryRange(4, 5), Menu: menu, Bound: 2, NoTrack: true}}
+	return []Layer{
+		{Name: "reset-capacity", Kinds: HashKinds, Geos: geos, Level: 2, Inputs: Union(BinaryRange(4, 5), FewLong(12)), Menu: menu, Bound: 2, NoTrack: true},
+		// Reset with a caller slice, then ReadFrom, then Write without a Parse in between: three deviations, one geometry
+		{Name: "reset-readfrom-write", Kinds: HashKinds, Geos: geos[:1], Level: 2, Inputs: FewLong(12), Menu: Menu{Restart: true, ReadFrom: true, StopEarly: true}, Bound: 3, NoTrack: true},
+	}
 }
 
 func init() {
